@@ -22,6 +22,10 @@ Sources == <<
     [id |-> "vpng", fmt |-> "versatiles", tf |-> "png", tc |-> "none"],
     [id |-> "vjpg", fmt |-> "versatiles", tf |-> "jpg", tc |-> "none"],
     [id |-> "vwebp", fmt |-> "versatiles", tf |-> "webp", tc |-> "none"],
+    \* raster tiles stored compressed (unusual, but every stored compression x raster/vector is quantified over)
+    [id |-> "vpngg", fmt |-> "versatiles", tf |-> "png", tc |-> "gzip"],
+    [id |-> "vjpgb", fmt |-> "versatiles", tf |-> "jpg", tc |-> "brotli"],
+    [id |-> "twebpg", fmt |-> "tar", tf |-> "webp", tc |-> "gzip"],
     [id |-> "mb", fmt |-> "mbtiles", tf |-> "pbf", tc |-> "gzip"],
     [id |-> "pm", fmt |-> "pmtiles", tf |-> "pbf", tc |-> "gzip"],
     [id |-> "tarsrc", fmt |-> "tar", tf |-> "pbf", tc |-> "brotli"] >>
@@ -63,7 +67,10 @@ Render(S, rd) ==
       [] OTHER -> Join([i \in 1..Len(TokSeq(S, FALSE)) |-> TokSeq(S, FALSE)[i] \o ";q=0." \o (IF i % 2 = 0 THEN "5" ELSE "9")], " ,  ")
 
 (* ------------------------------ static ------------------------------ *)
-SegClasses == {"a.txt", "sub", "index.html", "b.txt", ".", "..", "", "%2e%2e", "%2f", "canary.txt", "canary2.txt", "root", "parent"}
+\* c.txt exists inside the root only as c.txt.br, d.txt only as d.txt.gz; secret.txt exists outside (in <parent>) only as
+\* secret.txt.br / in <parent2> only as secret.txt.gz; <parent2> has only index.html.gz
+SegClasses == {"a.txt", "sub", "index.html", "b.txt", ".", "..", "", "%2e%2e", "%2f", "canary.txt", "canary2.txt", "root", "parent",
+               "c.txt", "d.txt", "secret.txt"}
 SegSeqs == UNION { [1..n -> SegClasses] : n \in 0..MaxSegs }
 Mounts == {"", "pre", "tar"}
 \* the file a plain request must be answered with (only stated for paths without dot / empty / encoded segments)
@@ -71,6 +78,7 @@ Target(segs) ==
     CASE segs = <<>> -> "in:index.html" [] segs = <<"a.txt">> -> "in:a.txt" [] segs = <<"index.html">> -> "in:index.html"
       [] segs = <<"sub", "b.txt">> -> "in:sub/b.txt" [] segs = <<"sub", "index.html">> -> "in:sub/index.html"
       [] segs = <<"sub", "">> -> "in:sub/index.html"
+      [] segs = <<"c.txt">> -> "in:c.txt" [] segs = <<"sub", "d.txt">> -> "in:sub/d.txt"
       [] OTHER -> ""
 
 Emit(rec) == PrintT(<<"REPLAY", ToJson(rec)>>)
